@@ -12,12 +12,14 @@ class C20(flow.Spec):
             "what waits at each release; every granted task registers in a live counter while it "
             "holds the connection (and uses it); observed: grant order, the largest number of WriteConn values alive at once, "
             "whether every non-cancelled task finished and the pool still serves all three priorities afterwards; the grant "
-            "order must equal the Coq model's. Plus watchdog runs on a real agent mixing, concurrently, local transactions, "
+            "order must equal the Coq model's. `cancelwin`: a requester dropped in the windows between granted and holding "
+            "(the grant in its mailbox but not polled again; parked on the write permit while somebody else has it), all "
+            "priorities: three later requests must be served. Plus watchdog runs on a real agent mixing, concurrently, local transactions, "
             "remote batches for three actors (in both actor orders), partial versions completed and applied from the buffer, "
             "sync-state generation and background write requests: everything must complete. non-trivial = distinct scripts "
             "with at least two priorities waiting at a release")
     assumptions = ["PARTIAL: tokio scheduling, the 5-minute timeouts of write_inner and the semaphore's own fairness are runtime; the watchdog run samples schedules, it does not enumerate them",
-                   "which locks each agent activity takes, and in which order, is written down by hand in Props/C20.v (not extracted from the source)",
+                   "which locks each function takes, in which order and for how long, is read from the source by tools/lockorder2coq.py (textual guard-lifetime rule); the older activity table in Props/C20.v is hand-written",
                    "starvation of lower priorities by a continuous stream of higher ones is allowed by the property (it only asks for deadlock freedom and priority)"]
 
     def cases(self, tier, seed):
@@ -64,6 +66,12 @@ class C20(flow.Spec):
                 if rnd.random() < 0.3:
                     ops.append("Q %d %d" % (rnd.choice([0, 1, 2]), nid)); nid += 1; tags.add("uncontended")
             out.append(("pool %d %s" % (len(ops), " ".join(ops)), tags))
+        # a requester cancelled in the windows between "granted" and "holding" (at the grant, while
+        # parked on the write permit): the pool must go on serving (model: Cancel of the holder frees)
+        for v in (0, 1):
+            for p in (0, 1, 2):
+                for p2 in (0, 1, 2):
+                    out.append(("cancelwin %d %d %d" % (v, p, p2), {"cancelled-between-grant-and-hold", "window-%d" % v}))
         M = 6 if tier == "quick" else 60
         for i in range(M):
             out.append(("mix %d %d" % (rnd.randrange(1, 10 ** 6), rnd.randrange(3, 7)), {"watchdog-mix"}))
@@ -73,6 +81,8 @@ class C20(flow.Spec):
         return [case] if case.startswith("pool ") else []
 
     def agree(self, case, impl_obs, model_obs):
+        if case.startswith("cancelwin "):
+            return not impl_obs.startswith(("PANIC", "ERR", "CRASH"))
         if case.startswith("mix "):
             return not impl_obs.startswith(("PANIC", "ERR", "CRASH"))
         a = dict(re.findall(r"(\w+)=(\S*)", impl_obs))
@@ -88,6 +98,8 @@ class C20(flow.Spec):
         f = dict(re.findall(r"(\w+)=(\S*)", impl_obs))
         if case.startswith("mix "):
             return None if f.get("done") == "1" else False
+        if case.startswith("cancelwin "):
+            return None if f.get("served") == "3" else False
         if f.get("maxlive") != "1" or f.get("stuck") != "0":
             return False
         # priority and progress, following the observed grants: replay the script; whenever nobody
